@@ -35,6 +35,12 @@ func replay(sub string, raw json.RawMessage) ([]h.Failure, error) {
 			return nil, err
 		}
 		return checkTree(c), nil
+	case "inputs":
+		var c inputsCase
+		if err := json.Unmarshal(raw, &c); err != nil {
+			return nil, err
+		}
+		return checkInputs(c), nil
 	case "corruption":
 		var c srcCase
 		if err := json.Unmarshal(raw, &c); err != nil {
